@@ -175,6 +175,16 @@ def run_batches(ctx: Ctx):
                 except Exception as e:
                     ctx.violate(f'C10:{fname}-raises', f'Component.{fname} raised {type(e).__name__}: {e}', case); continue
                 ctx.count(f'component_{fname}')
+                # the order of keys in the input dictionary is irrelevant (also for derivatives)
+                try:
+                    yr = f({k: xin[k] for k in reversed(list(xin.keys()))})
+                    for var in yb:
+                        if var == 'errors' or np.asarray(yb[var]).dtype == object:
+                            continue
+                        if not systems.floats_close(np.asarray(yb[var], dtype=float), np.asarray(yr[var], dtype=float), rtol=1e-13, atol=1e-300):
+                            ctx.violate(f'C10:{fname}-key-order', f'Component.{fname}: {var} depends on the key order of the input dict', case); break
+                except Exception as e:
+                    ctx.violate(f'C10:{fname}-raises', f'Component.{fname} with reversed key order raised {type(e).__name__}: {e}', case)
                 for var, arr in yb.items():
                     arr = np.asarray(arr)
                     # reading fixed in C10_output_shape: a one-sample loop (1,) is squeezed in front of trailing axes
@@ -210,6 +220,7 @@ def run(ctx: Ctx):
     run_nan_batches(ctx)
     run_positional_keys(ctx)
     run_loop_batches(ctx)
+    run_field_coords(ctx)
 
 
 def run_nan_batches(ctx: Ctx):
@@ -278,6 +289,46 @@ def run_loop_batches(ctx: Ctx):
                                     {**case, 'sample': j}); break
         except Exception as e:
             ctx.violate('C10:predict-raises', f'{type(e).__name__}: {e}', case)
+
+
+def run_field_coords(ctx: Ctx):
+    """field-quantity inputs announced by `<var>_coords` on 1-d / 2-d / 3-d grids: the trailing field axes are not loop axes; a batch of
+    fields has one result per field, equal to the result of that field alone"""
+    from amisc import Component, Variable
+    rng = ctx.rng
+
+    def model(inputs, f_coords=None, g_coords=None):
+        nf = 1 if f_coords is None or f_coords.ndim == 1 else f_coords.ndim - 1
+        ng = 1 if g_coords is None or g_coords.ndim == 1 else g_coords.ndim - 1
+        f, g = np.asarray(inputs['f'], dtype=float), np.asarray(inputs['g'], dtype=float)
+        return {'y': np.sum(f, axis=tuple(range(-nf, 0))) + 2.0 * np.max(g, axis=tuple(range(-ng, 0)))}
+    for n in range(ctx.pick(10, 80)):
+        nd = rng.randint(1, 3)
+        sizes = [rng.randint(2, 4) for _ in range(nd)]
+        if nd == 1:
+            coords = np.linspace(0, 1, sizes[0]) if rng.random() < 0.5 else np.linspace(0, 1, sizes[0]).reshape((sizes[0], 1))
+        else:
+            coords = np.stack(np.meshgrid(*[np.linspace(0, 1, m) for m in sizes], indexing='ij'), axis=-1)
+        fshape = tuple(sizes)
+        vec = rng.random() < 0.5
+        loop = tuple(rng.randint(1, 3) for _ in range(rng.randint(1, 2)))
+        comp = Component(model, [Variable('f'), Variable('g')], [Variable('y')], vectorized=vec, name=f'fc{n}')
+        rs = np.random.RandomState(ctx.seed * 41 + n)
+        f = rs.rand(*(loop + fshape)); g = rs.rand(*(loop + fshape))
+        axes = tuple(range(-len(fshape), 0))
+        want = np.sum(f, axis=axes) + 2.0 * np.max(g, axis=axes)
+        case = {'field_coords': n, 'grid_sizes': sizes, 'coords_shape': list(coords.shape), 'loop_shape': loop, 'vectorized': vec}
+        ctx.case(case, nontrivial=nd >= 2, kind=f'field-coords:{nd}d')
+        for fname, call in (('call_model', lambda: comp.call_model({'f': f, 'g': g}, f_coords=coords, g_coords=coords)),
+                            ('predict(use_model)', lambda: comp.predict({'g': g, 'f': f}, use_model='best', f_coords=coords, g_coords=coords))):
+            try:
+                y = np.asarray(call()['y'])
+            except Exception as e:
+                ctx.violate('C10:field-input-raises', f'{fname} raised {type(e).__name__}: {e}', case); continue
+            if y.shape != loop:
+                ctx.violate('C10:field-axes-taken-as-loop-axes', f'{fname} returned shape {y.shape} for loop shape {loop} and field shape {fshape}', case)
+            elif not np.allclose(y, want, rtol=1e-13, atol=0):
+                ctx.violate('C10:batch-vs-single', f'{fname}: values differ from the per-field results', case)
 
 
 def run_positional_keys(ctx: Ctx):
